@@ -315,7 +315,8 @@ func c07BStep(t *rapid.T) kit.Argv {
 	case 2:
 		return kit.A("PERSIST", k)
 	case 3:
-		a := []string{"SET", "ks", pick(t, "v", "1", "abc")}
+		// (also over keys that hold another type: SET replaces them, KEEPTTL keeps their deadline)
+		a := []string{"SET", pick(t, "setk", "ks", "ks", k), pick(t, "v", "1", "abc")}
 		switch rapid.IntRange(0, 3).Draw(t, "e") {
 		case 0:
 			a = append(a, "KEEPTTL")
@@ -376,7 +377,7 @@ func c07BObserve(argv []string, before *model.DB, exp model.Exp, st *kit.Stats, 
 	case "PERSIST", "GETEX":
 		flags["dl:"+argv[1]+":"+name]++
 	case "SET":
-		flags["dl:ks:SET"+strings.Join(argv[3:], "")]++
+		flags["dl:"+argv[1]+":SET"+strings.Join(argv[3:], "")]++
 	}
 }
 
